@@ -70,8 +70,8 @@ Inductive okind := KMeasurement | KCharacteristic | KAxisPts | KAxisDescrStd | K
 
 Definition limit_error (k : okind) (existing : float * float) (c : conv) (d : dtype) : bool :=
   let calc := calc_compu_method_limits c d in
+  (* all five kinds use the same tolerant comparison (TYPEDEF_MEASUREMENT since the repair 086bb2a) *)
   match k with
-  | KTypedefMeasurement => typedef_measurement_error existing calc
   | _ => negb (check_limits_valid existing calc)
   end.
 
